@@ -25,8 +25,8 @@ Per call `c` (one `call` / `start_task_soon` / `start_task` from a foreign threa
 counts its transitions out of `pending` (ghost).  `cancelReq c` = the call's own scope was
 cancelled through the future's done-callback.  `byStop c` = the callback captured
 `event_loop_thread_id = None` because `_call_func` began after `stop()`: for such a call
-cancelling the future from a foreign thread does *not* reach the scope (from_thread.py,
-`callback`: neither branch is taken).  `status c` is the `task_status` future of `start_task`.
+cancelling the future -- from a foreign thread, or before the task began -- does *not* reach
+the scope (from_thread.py, `callback`: neither branch is taken).  `status c` is the `task_status` future of `start_task`.
 
 Environment events: `spawn` / `begin` (loop scheduling), `finish c o` (the awaited callable
 completes: returns, raises, or lets a cancellation propagate -- the latter only if one was
@@ -166,11 +166,13 @@ def step (s : State) : Ev → Option (State × Out)
     else none
   | .begin c =>
     if s.pc c = .spawned ∧ s.kind c ≠ .sync then
-      -- `future.add_done_callback(callback)` runs the callback at once if the future is
-      -- already cancelled; that happens in the loop thread, so it always reaches the scope
+      -- `future.add_done_callback(callback)` runs the callback at once (in the loop thread) if
+      -- the future is already cancelled; it compares the *captured* `event_loop_thread_id` with
+      -- `get_ident()`, so after `stop()` (captured value `None`) it does nothing either
       some ({ s with pc := upd s.pc c .running, execs := upd s.execs c (s.execs c + 1),
                      byStop := upd s.byStop c (decide (s.portal ≠ .running)),
-                     cancelReq := upd s.cancelReq c (decide (s.fut c = .done .cancelled)) }, .env)
+                     cancelReq := upd s.cancelReq c
+                       (decide (s.fut c = .done .cancelled ∧ s.portal = .running)) }, .env)
     else none
   | .started c n =>
     if s.pc c = .running ∧ s.kind c = .task ∧ s.status c = .pending then
